@@ -690,8 +690,9 @@ class Engine(OpsMixin):
         if getattr(fn, "_is_model", False) is True:
             return False
         try:
-            if self.models.get(fn) is not None:
-                return False
+            m = self.models.get(fn)
+            if m is not None:
+                return getattr(m, "_lazy_ok", False)      # any() / all() stop at the first deciding element, as CPython does
         except TypeError:
             pass
         if isinstance(fn, type):
